@@ -17,7 +17,12 @@ A *dispatch* is the part of a function that decides, from the run number alone, 
    PAny |-> f(0)]  with k_1 < .. < k_n the points where f changes on [0, MAX-1].  Every dispatch of the unchanged
    repository has this form already, so the generated text is the same; a semantically neutral rewrite of the Rust
    code (named constants, guards, closed ranges, if-chains, arm order where it does not matter) gives the same
-   text too, and any change of the FUNCTION changes the text.
+   text too, and a change of the function COMPUTED BY THE STATEMENTS READ (the dispatching `let` and the early
+   returns in front of it) changes the text.  The other statements of the body are not interpreted: they are
+   CHECKED not to use the run number (outside the arguments of error constructors) and not to bind it again
+   (`dispatch_statements`); one that does raises GenError, i.e. the fallback 3. or a translator failure.  A named
+   constant with two different definitions in the file (an inner `const` shadowing an outer one) raises GenError
+   too: the front end does not model scopes.
 
 3. SEMANTIC FALLBACK (callers: genx_maps.py, genx_calib.py), used only when 1. fails: the real implementation is
    evaluated (harness binary, `obs` mode) at candidate boundaries = every integer literal and every integer constant
@@ -100,6 +105,13 @@ def eval_const_expr(expr, env):
 def int_consts(src):
     """every `const|static NAME: <integer type> = <constant expression>;` of the file (any module, any nesting) -> value"""
     items = re.findall(r"\b(?:const|static)\s+(\w+)\s*:\s*(?:%s)\s*=\s*([^;{}]+);" % INT_TYPES, src)
+    seen = {}
+    for n, e in items:
+        e1 = re.sub(r"\s+", " ", e.strip())
+        if n in seen and seen[n] != e1:
+            raise GenError("constant %s is defined twice with different values (%s / %s): scopes are not modelled"
+                           % (n, seen[n], e1))
+        seen[n] = e1
     env = {}
     for _ in range(len(items) + 1):
         progress = False
@@ -650,15 +662,79 @@ def leaf_ok_int(leaf, consts):
     return None
 
 
+BENIGN_CALLS = ("Err", "ok_or", "ok_or_else", "map_err", "unwrap_or_else", "expect", "format", "panic", "unreachable")
+
+
+def all_tokens(node):
+    """every token of a statement / decision tree (conditions, scrutinees, patterns, leaves, `let` names)"""
+    if isinstance(node, Leaf):
+        return list(node.toks)
+    if isinstance(node, If):
+        return list(node.cond) + all_tokens(node.then) + (all_tokens(node.other) if node.other is not None else [])
+    if isinstance(node, Match):
+        out = list(node.scrut)
+        for pat, sub in node.arms:
+            out += list(pat) + all_tokens(sub)
+        return out
+    if isinstance(node, Block):
+        return [t for s, _ in node.stmts for t in all_tokens(s)]
+    if isinstance(node, Let):
+        return tokens(node.name) + all_tokens(node.node)
+    return []
+
+
+def strip_benign(toks):
+    """the tokens outside the argument lists of error constructors / error adaptors (`Err(..)`, `.ok_or(..)`, ...): the
+    run number may be MENTIONED there (it is carried in the error value); it cannot influence the selection there"""
+    out, i = [], 0
+    while i < len(toks):
+        k, v = toks[i]
+        if (k == "id" and v.split("::")[-1] in BENIGN_CALLS and i + 1 < len(toks)
+                and toks[i + 1] in (("p", "("), ("p", "!"))):
+            j = i + 1 if toks[i + 1] == ("p", "(") else i + 2
+            if j < len(toks) and toks[j][0] == "p" and toks[j][1] in "([{":
+                e = matching(toks, j)
+                if e > 0:
+                    i = e + 1
+                    continue
+        out.append((k, v))
+        i += 1
+    return out
+
+
+def uses_run(node, runvar):
+    return any(k == "id" and v == runvar for k, v in strip_benign(all_tokens(node)))
+
+
 def dispatch_statements(block, runvar="run_number"):
-    """(early, lets): the top-level early-return `if` statements testing the run number, each with its position, and the
-    `let NAME = <decision tree testing the run number>` statements of a function body"""
+    """(early, lets): the statements in front of a dispatching `let` that test the run number (early returns: `if`
+    with or without else, `match` with unit arms, blocks), each with its position, and the
+    `let NAME = <decision tree testing the run number>` statements of a function body.
+
+    EVERY other statement of the body is checked: one that uses the run number outside the argument list of an error
+    constructor / adaptor (`Err(..)`, `.ok_or(..)`, ...), or that binds the run variable again, raises GenError -- the
+    function of the run number would then not be the one read from the `let`s (the callers fall back to probing the
+    implementation, or fail)."""
     early, lets = [], []
     for k, (st, semi) in enumerate(block.stmts):
-        if isinstance(st, Let) and isinstance(st.node, (If, Match, Block)) and mentions(st.node, {runvar}):
-            lets.append((k, st.name, st.node))
-        elif isinstance(st, If) and st.other is None and mentions(st, {runvar}) and k < len(block.stmts) - 1:
+        if isinstance(st, Let):
+            bound = {v for kk, v in tokens(st.name) if kk == "id"}
+            if runvar in bound:
+                raise GenError("dispatch: the run variable `%s` is bound again (`let %s`)" % (runvar, st.name))
+            if isinstance(st.node, (If, Match, Block)) and mentions(st.node, {runvar}):
+                lets.append((k, st.name, st.node))
+            elif uses_run(st, runvar):
+                raise GenError("dispatch: `let %s` uses the run number outside a decision tree" % st.name)
+        elif isinstance(st, (If, Match, Block)) and mentions(st, {runvar}) and k < len(block.stmts) - 1:
             early.append((k, st))
+        elif uses_run(st, runvar):
+            raise GenError("dispatch: a statement uses the run number outside the dispatching `let`: %r"
+                           % show(all_tokens(st))[:120])
+    if lets:
+        last_let = max(k for k, _, _ in lets)
+        late = [k for k, _ in early if k > last_let]
+        if late:
+            raise GenError("dispatch: the run number is tested again after the dispatching `let` (statement %d)" % late[0])
     return early, lets
 
 
